@@ -266,7 +266,7 @@ def run_pipe1(case):
     for key, msg, det in p.viol[:3]:
         res.violate(key, msg + f" [cfg={cfg}]", case)
     with p._env():
-      if p.completed:
+      if p.completed and not cfg.get("ll_noisy"):
         want_blobs = p.cfg["eval"] in ("blobs", "poolobj_blobs")
         f = TARGETS[p.cfg["target"]]
         for rs, trim, rb in itertools.product([False, True], repeat=3):
@@ -406,6 +406,8 @@ def plan(ctx):
           for ev in ("blobs", "poolobj_blobs") for k in ("tpcn", "rwm") for bf in (None, "vector") for cl in (False, True) for b in ((0, 3) if th else (0,))]
     sp += [{"kind": "pipe1", "cfg": dict(n_particles=16, d=2, n_total=64, target="errsens", eval=ev, sample=k, env="over-raise", clustering=cl), "base": ctx.seed + b}
            for ev in ("scalar", "blobs", "vec") for k in ("tpcn", "rwm") for cl in (False, True) for b in ((0, 3) if th else (0,))]
+    sp += [{"kind": "pipe1", "cfg": dict(n_particles=16, d=2, n_total=64, target=t, eval=ev, sample=k, ll_noisy=True, clustering=cl, boundary=bd), "base": ctx.seed + b}
+           for t in ("gauss", "corner") for ev in ("blobs", "poolobj_blobs") for k in ("tpcn", "rwm") for cl in (False, True) for bd in ("none", "per0") for b in ((0, 3) if th else (0,))]
     ctx.explore("exact-ties-and-error-state", sp)
     from mc.pipeline import LARGE
     ctx.explore("large-scopes", [{"kind": "pipe1", "cfg": c, "base": ctx.seed + b} for c in LARGE for b in ((0, 4) if th else (0,))])
